@@ -81,6 +81,22 @@ def generate(seed, tier, cfg):
             ops.append({"k": "pretty_segments"})
         else:
             ops.append({"k": "force_new"})
+    if k.random() < 0.02:
+        # a boundary: a long piece with more sections than the alphabet has letters (segment ids)
+        nsec = k.choice((26, 27, 28, 30))
+        L = 4
+        notes = [{"id": "p1n%d" % (m + 1), "kind": "note", "t": m * L, "e": (m + 1) * L, "voice": 1, "staff": 1, "sym": {"type": "whole", "dots": 0}, "m": m, "g": None, "step": "CDEFGAB"[m % 7], "alter": None, "octave": 3 + m % 3} for m in range(nsec)]
+        p = {
+            "id": "P1", "name": "Part P1", "abbr": None, "qdivs": [[0, 1]], "nstaves": 1, "end": nsec * L,
+            "measures": [{"s": m * L, "e": (m + 1) * L, "number": m + 1, "name": str(m + 1)} for m in range(nsec)],
+            "timesigs": [{"t": 0, "beats": 4, "beat_type": 4}], "keysigs": [{"t": 0, "fifths": 0, "mode": "major"}],
+            "clefs": [{"t": 0, "staff": 1, "sign": "G", "line": 2, "oct": 0}],
+            "notes": notes, "slurs": [], "tuplets": [], "dirs": [], "tempos": [], "nav": [], "fermatas": [], "endings": [],
+            "repeats": [{"s": m * L, "e": (m + 1) * L} for m in range(nsec)], "repeat_shape": "many",
+        }
+        asc = {"id": None, "parts": [p], "groups": None}
+        ops = [{"k": "max", "update_ids": True, "ignore_leaps": True}, {"k": "min"}, {"k": "max", "update_ids": False, "ignore_leaps": True}]
+        return {"workload": asc, "ops": ops, "knobs": {"via_score": k.random() < 0.3}}
     if p.get("repeat_shape") in ("simple", "simple2") and k.random() < 0.5:
         # a history: unfold, move a repeat start one measure earlier (in place), rebuild the segments, unfold again
         ops += [{"k": "max", "update_ids": True, "ignore_leaps": True}, {"k": "move_repeat"}, {"k": "max", "update_ids": True, "ignore_leaps": True}, {"k": "iter", "take": 99, "update_ids": False}]
